@@ -294,7 +294,7 @@ def scaling_probe(name, make, sizes):
                 ev, dt, _ = line_events(lambda: data())
         except Timeout:
             rows.append((n, None, 20.0))
-            return name, rows, f"no answer within 20 s for a field of {n} bytes"
+            return name, rows, f"no answer within 20 s for a field of {n} bytes / items"
         rows.append((n, ev, dt))
     (n0, e0, t0), (n1, e1, t1) = rows[0], rows[-1]
     k = n1 / n0
@@ -332,7 +332,28 @@ def probes(quick):
     P.append(("connect attributes, n/4 entries", lambda n: (lambda: impl_handshake(cl.handshake_response(
         user=b"u", caps=cl.BASE_CAPS | cl.CLIENT_CONNECT_ATTRS, charset=8, attrs=[(b"k", b"v")] * (n // 4))))))
     P.append(("query attribute count 2^64-1", lambda n: (lambda: pk.impl_parse_com_query(b"\xfe" + b"\xff" * 8 + b"\x01" + b"\x00" * n, True))))
-    return [(name, mk, sizes) for name, mk in P]
+    out = [(name, mk, sizes) for name, mk in P]
+
+    # statement text is client bytes too: a LIKE pattern of n wildcards in a 40-byte COM_QUERY (answered by the library itself)
+    def like_probe(piece):
+        def mk(n):
+            import asyncio
+            from mysql_mimic.session import Session
+            sql = "SHOW VARIABLES LIKE '" + piece * (n // len(piece)) + "!'"
+
+            def go():
+                loop = asyncio.new_event_loop()
+                try:
+                    return loop.run_until_complete(Session().handle_query(sql, {}))
+                finally:
+                    loop.close()
+            return go
+        return mk
+    lsizes = [8, 28] if quick else [8, 28, 120]
+    out.append(("SHOW VARIABLES LIKE with n consecutive % wildcards", like_probe("%"), lsizes))
+    out.append(("SHOW VARIABLES LIKE with n/2 '%_' pairs", like_probe("%_"), lsizes))
+    out.append(("SHOW VARIABLES LIKE with n/2 '%a' pairs", like_probe("%a"), lsizes))
+    return out
 
 
 # ----------------------------------------------------------------- server level
